@@ -43,22 +43,24 @@ impl CrateIndexer for PavexIndexer {
     }
 
     fn index(&self, crate_data: CrateData, package_id: PackageId) -> IndexResult<AnnotatedItems> {
-        let n_diagnostics = self.diagnostic_sink.len();
         let mut annotation_queue = BTreeSet::<QueueItem>::new();
         let mut visitor = PavexIndexingVisitor {
             annotation_queue: &mut annotation_queue,
             diagnostics: &self.diagnostic_sink,
+            n_diagnostics: 0,
         };
         let krate = Crate::index(crate_data, package_id, &mut visitor);
-        let annotated_items =
+        let n_visitor_diagnostics = visitor.n_diagnostics;
+        let (annotated_items, n_queue_diagnostics) =
             annotations::process_queue(annotation_queue, &krate, &self.diagnostic_sink);
-        // No issues arose in the indexing phase if the diagnostic count hasn't changed.
+        // The secondary indexes can be cached if no issue arose while indexing *this* crate.
         //
-        // TODO: Since we're indexing in parallel, the counter may have been incremented
-        //  by a different thread, signaling an issue with indexes for another crate.
-        //  It'd be enough to keep a thread-local counter to get an accurate yes/no,
-        //  but since we don't get false negatives it isn't a big deal.
-        let can_cache_indexes = n_diagnostics == self.diagnostic_sink.len();
+        // We count the diagnostics emitted by this invocation, rather than comparing the length
+        // of the sink before and after: crates are indexed in parallel and the sink is shared,
+        // so its length may have been bumped by another thread, signaling an issue with
+        // a different crate. That's not just a missed caching opportunity:
+        // toolchain crates must always be cached together with their indexes.
+        let can_cache_indexes = n_visitor_diagnostics == 0 && n_queue_diagnostics == 0;
         IndexResult {
             krate,
             annotations: annotated_items,
@@ -70,6 +72,8 @@ impl CrateIndexer for PavexIndexer {
 struct PavexIndexingVisitor<'a> {
     annotation_queue: &'a mut BTreeSet<QueueItem>,
     diagnostics: &'a DiagnosticSink,
+    /// The number of diagnostics emitted by this visitor.
+    n_diagnostics: usize,
 }
 
 impl IndexingVisitor for PavexIndexingVisitor<'_> {
@@ -82,6 +86,7 @@ impl IndexingVisitor for PavexIndexingVisitor<'_> {
             Err(e) => {
                 // TODO: Only report an error if it's a crate from the current workspace
                 invalid_diagnostic_attribute(e, item, self.diagnostics);
+                self.n_diagnostics += 1;
             }
         }
     }
